@@ -108,3 +108,55 @@ example : ∃ s, Reachable s ∧ s.lockHist.length = 3 := by
   exact ⟨s, hr, by rw [hl]; rfl⟩
 
 end C06
+
+namespace C06
+open Seq
+
+/-! ### Known finding F3: publication order is not monotone with two live instances.
+The model accepts the following run (instance 0 stalls after its compare-and-swap; instance 1 loads,
+applies instance 0's staged bundle, sequences and publishes; instance 0 resumes and publishes its older
+checkpoint). The publication history then reads c1 (newest), c2, c1', c0: the public checkpoint went
+from size 2 back to size 1. The same schedule is replayed on two real Log instances by
+corpus/C06/seq-f3-publication-regress.json. The lock history remains a chain (`C06_no_fork`). -/
+
+def f3c0 : Ck := ⟨[], 100⟩
+def f3c1 : Ck := ⟨[⟨0, 0, 110⟩], 110⟩
+def f3c2 : Ck := ⟨[⟨0, 0, 110⟩, ⟨1, 1, 120⟩], 120⟩
+def f3b1 : List (TileId × Tree) := [(⟨.data,0,1⟩, f3c1.leaves), (⟨.names,0,1⟩, f3c1.leaves), (⟨.hash 0,0,1⟩, f3c1.leaves)]
+def f3b2 : List (TileId × Tree) := [(⟨.data,0,2⟩, f3c2.leaves), (⟨.names,0,2⟩, f3c2.leaves), (⟨.hash 0,0,2⟩, f3c2.leaves)]
+
+def f3 : List Ev := [
+  .launchCreate 0, .lockFetch 0 .nf, .fetch 0 .ckpt .nf, .clock 0 100, .lockCreate 0 f3c0 .ok,
+  .upload 0 .ckpt false (.ck f3c0) .ok, .upload 0 .roots false (.blob 0) .ok, .created 0,
+  .launchLoad 0, .lockFetch 0 (.ok f3c0), .clock 0 101, .fetch 0 .ckpt (.ok (.ck f3c0)), .clock 0 101,
+  .fetch 0 .roots (.ok (.blob 0)), .loaded 0 f3c0,
+  .launchSubmit 0, .submitted 0 0 0 false [] .sequencer,
+  .launchRound 0, .clock 0 110, .upload 0 (.staging f3c1.leaves) true (.bundle f3b1) .ok,
+  .lockReplace 0 f3c0 f3c1 .ok,
+  -- instance 0 stalls here; instance 1 starts and finds the lock ahead of the published checkpoint
+  .launchLoad 1, .lockFetch 1 (.ok f3c1), .clock 1 111, .fetch 1 .ckpt (.ok (.ck f3c0)), .clock 1 111,
+  .fetch 1 (.legacyStaging f3c1.leaves) .nf, .fetch 1 (.staging f3c1.leaves) (.ok (.bundle f3b1)),
+  .upload 1 (.tile ⟨.data,0,1⟩) true (.slice f3c1.leaves) .ok,
+  .upload 1 (.tile ⟨.names,0,1⟩) true (.slice f3c1.leaves) .ok,
+  .upload 1 (.tile ⟨.hash 0,0,1⟩) true (.slice f3c1.leaves) .ok,
+  .fetch 1 (.tile ⟨.hash 0,0,1⟩) (.ok (.slice f3c1.leaves)), .fetch 1 (.tile ⟨.data,0,1⟩) (.ok (.slice f3c1.leaves)),
+  .fetch 1 .roots (.ok (.blob 0)), .loaded 1 f3c1,
+  .launchSubmit 1, .submitted 1 1 1 false [] .sequencer,
+  .launchRound 1, .clock 1 120, .upload 1 (.staging f3c2.leaves) true (.bundle f3b2) .ok,
+  .lockReplace 1 f3c1 f3c2 .ok,
+  .upload 1 (.tile ⟨.data,0,2⟩) true (.slice f3c2.leaves) .ok,
+  .upload 1 (.tile ⟨.names,0,2⟩) true (.slice f3c2.leaves) .ok,
+  .upload 1 (.tile ⟨.hash 0,0,2⟩) true (.slice f3c2.leaves) .ok,
+  .upload 1 .ckpt false (.ck f3c2) .ok, .discard 1 (.staging f3c2.leaves) .ok, .ack 1 1 1 1 120, .roundEnd 1 .ok,
+  -- instance 0 resumes: same-content immutable tiles are accepted, then its older checkpoint is published
+  .upload 0 (.tile ⟨.data,0,1⟩) true (.slice f3c1.leaves) .ok,
+  .upload 0 (.tile ⟨.names,0,1⟩) true (.slice f3c1.leaves) .ok,
+  .upload 0 (.tile ⟨.hash 0,0,1⟩) true (.slice f3c1.leaves) .ok,
+  .upload 0 .ckpt false (.ck f3c1) .ok]
+
+/-- the unrestricted statement "publication order is monotone" is false of the model (and of the code) -/
+theorem C06_pub_order_not_monotone_witness :
+    ∃ s, run (init 0) f3 = some s ∧ s.pubHist = [f3c1, f3c2, f3c0] ∧ s.lockHist = [f3c2, f3c1, f3c0] := by
+  refine ⟨_, rfl, rfl, rfl⟩
+
+end C06
